@@ -150,6 +150,29 @@ type Case struct {
 	OutLen         int    `json:"out_len,omitempty"`
 	Mode           string `json:"mode"` // reject short reject-transient
 	SinkReaderFrom bool   `json:"sink_readerfrom"`
+	// ErrKind: the error VALUE the destination fails with: "" = a private sentinel, or one of the
+	// standard library's values that code may be tempted to treat as "not really an error":
+	// "eof" io.EOF, "short-write" io.ErrShortWrite, "closed-pipe" io.ErrClosedPipe, "unexpected-eof"
+	// io.ErrUnexpectedEOF.
+	ErrKind string `json:"err_kind,omitempty"`
+}
+
+var errKinds = []string{"", "eof", "short-write", "closed-pipe", "unexpected-eof"}
+
+func errOfKind(k string) (error, bool) {
+	switch k {
+	case "":
+		return errInjected, true
+	case "eof":
+		return io.EOF, true
+	case "short-write":
+		return io.ErrShortWrite, true
+	case "closed-pipe":
+		return io.ErrClosedPipe, true
+	case "unexpected-eof":
+		return io.ErrUnexpectedEOF, true
+	}
+	return nil, false
 }
 
 // runFn runs the serializer once over the (fixed) artifact.
@@ -345,6 +368,7 @@ type faultSink struct {
 	rec     bool
 	got     []byte
 	rfCalls int
+	err     error // what a failing Write returns
 }
 
 func (s *faultSink) take(p []byte) {
@@ -369,7 +393,7 @@ func (s *faultSink) Write(p []byte) (int, error) {
 		return 0, nil
 	}
 	if s.failed && s.mode != mTransient {
-		return 0, errInjected
+		return 0, s.err
 	}
 	room := s.cap - s.n
 	if len(p) <= room {
@@ -379,9 +403,9 @@ func (s *faultSink) Write(p []byte) (int, error) {
 	s.failed = true
 	if s.mode == mShort && room > 0 {
 		s.take(p[:room])
-		return room, errInjected
+		return room, s.err
 	}
-	return 0, errInjected
+	return 0, s.err
 }
 
 // rfSink additionally implements io.ReaderFrom (like *os.File, *bytes.Buffer, *bufio.Writer):
@@ -457,8 +481,9 @@ func baseline(run runFn) (O []byte, v *verdict) {
 }
 
 // evalFault runs the serializer against a sink of capacity k and judges the outcome.
-func evalFault(run runFn, O []byte, k, mode int, rf, rec bool) (v *verdict, s *faultSink) {
-	s = &faultSink{want: O, cap: k, mode: mode, bad: -1, rec: rec}
+func evalFault(run runFn, O []byte, k, mode int, rf, rec bool, errKind string) (v *verdict, s *faultSink) {
+	ferr, _ := errOfKind(errKind)
+	s = &faultSink{want: O, cap: k, mode: mode, bad: -1, rec: rec, err: ferr}
 	var w io.Writer = s
 	if rf {
 		w = rfSink{s}
@@ -477,7 +502,7 @@ func evalFault(run runFn, O []byte, k, mode int, rf, rec bool) (v *verdict, s *f
 	if v != nil {
 		return v, s
 	}
-	desc := fmt.Sprintf("destination capacity k=%d of len(O)=%d, mode=%s, readerfrom=%v: serializer returned err=%v", k, len(O), modeNames[mode], rf, err)
+	desc := fmt.Sprintf("destination capacity k=%d of len(O)=%d, mode=%s, readerfrom=%v, failing with %q: serializer returned err=%v", k, len(O), modeNames[mode], rf, ferr, err)
 	if has {
 		desc += fmt.Sprintf(" count=%d", count)
 	}
@@ -515,6 +540,9 @@ func evalFault(run runFn, O []byte, k, mode int, rf, rec bool) (v *verdict, s *f
 
 var prop = vh.Define("C19", sub, func(c Case, r *vh.R) {
 	mode, ok := modeOf(c.Mode)
+	if _, known := errOfKind(c.ErrKind); !known {
+		ok = false
+	}
 	if !ok || c.K < 0 {
 		r.Failf("bad-case", "unknown mode %q or negative k", c.Mode)
 		return
@@ -539,6 +567,9 @@ var prop = vh.Define("C19", sub, func(c Case, r *vh.R) {
 	r.Class("ser:" + c.Serializer)
 	r.Class(variant)
 	r.Class("mode-" + c.Mode)
+	if c.ErrKind != "" {
+		r.Class("fails-with:" + c.ErrKind)
+	}
 	if c.SinkReaderFrom {
 		r.Class("sink-readerfrom")
 	} else {
@@ -559,7 +590,7 @@ var prop = vh.Define("C19", sub, func(c Case, r *vh.R) {
 			r.Failf("baseline-failed", "cannot build the artifact: %v", err)
 			return
 		}
-		if v, _ := evalFault(run, O, k, mode, c.SinkReaderFrom, true); v != nil {
+		if v, _ := evalFault(run, O, k, mode, c.SinkReaderFrom, true, c.ErrKind); v != nil {
 			r.Failf(v.kind, "%s %s: %s", c.Serializer, variant, v.msg)
 			return
 		}
@@ -595,30 +626,38 @@ func enumerate(t *testing.T, a Art, tl *tally) bool {
 	classes := map[string]int64{}
 	var evals, nt int64
 	big := len(O) > 32*1024+1
-	for _, rf := range []bool{false, true} {
-		for mode := range modeNames {
-			var rfInvoked int64
-			ks := faultPositions(len(O), a.Sampled)
-			for _, k := range ks {
-				v, s := evalFault(run, O, k, mode, rf, false)
-				if v != nil {
-					return report(Case{Art: a, K: k, OutLen: len(O), Mode: modeNames[mode], SinkReaderFrom: rf}, v)
+	for pass, ek := range errKinds {
+		for _, rf := range []bool{false, true} {
+			for mode := range modeNames {
+				if ek != "" && (mode == mTransient || rf != (pass%2 == 0)) {
+					continue // the standard error values: sticky and short-write faults, one kind of destination each
 				}
-				if s.rfCalls > 0 {
-					rfInvoked++
+				var rfInvoked int64
+				ks := faultPositions(len(O), a.Sampled)
+				for _, k := range ks {
+					v, s := evalFault(run, O, k, mode, rf, false, ek)
+					if v != nil {
+						return report(Case{Art: a, K: k, OutLen: len(O), Mode: modeNames[mode], SinkReaderFrom: rf, ErrKind: ek}, v)
+					}
+					if s.rfCalls > 0 {
+						rfInvoked++
+					}
 				}
+				n := int64(len(ks))
+				evals += n
+				nt += n - 1
+				classes["mode-"+modeNames[mode]] += n
+				if ek != "" {
+					classes["fails-with:"+ek] += n
+				}
+				if rf {
+					classes["sink-readerfrom"] += n
+					classes["readfrom-invoked"] += rfInvoked
+				} else {
+					classes["sink-plain"] += n
+				}
+				classes["control-k=len"]++
 			}
-			n := int64(len(ks))
-			evals += n
-			nt += n - 1
-			classes["mode-"+modeNames[mode]] += n
-			if rf {
-				classes["sink-readerfrom"] += n
-				classes["readfrom-invoked"] += rfInvoked
-			} else {
-				classes["sink-plain"] += n
-			}
-			classes["control-k=len"]++
 		}
 	}
 	classes["ser:"+a.Serializer] = evals
